@@ -72,6 +72,7 @@ func driveVerify(c *ctx) {
 	rng := rand.New(rand.NewSource(c.seed))
 	half := new(big.Int).Rsh(add(bigN, -1), 1)
 
+	hashSweep := 0
 	raw := func(q *secec.PublicKey, digest []byte, r, s *big.Int) {
 		out := q.VerifyRaw(digest, scFrom(r), scFrom(s))
 		c.E("vfy.Raw", "q", hx(q.Bytes()), "digest", hx(digest), "r", h32(r), "s", h32(s), "out", out)
@@ -87,7 +88,7 @@ func driveVerify(c *ctx) {
 			h = crypto.SHA256
 		}
 		out := q.Verify(digest, sig, opts)
-		c.E("vfy.Enc", "q", hx(q.Bytes()), "digest", hx(digest), "sig", hx(sig), "hasopts", true, "hash", h.Size(), "enc", encName(opts.Encoding), "rejmal", opts.RejectMalleable, "out", out)
+		c.E("vfy.Enc", "q", hx(q.Bytes()), "digest", hx(digest), "sig", hx(sig), "hasopts", true, "hash", h.Size(), "hashid", int(h), "enc", encName(opts.Encoding), "rejmal", opts.RejectMalleable, "out", out)
 	}
 	btc := func(q *secec.PublicKey, digest, sig []byte) {
 		out := bitcoin.VerifyASN1(q, digest, sig)
@@ -119,6 +120,17 @@ func driveVerify(c *ctx) {
 		enc(q, digest, sigs[secec.EncodingASN1], nil)
 		enc(q, digest, sigs[secec.EncodingASN1], &secec.ECDSAOptions{Hash: crypto.SHA512})
 		enc(q, digest, sigs[secec.EncodingASN1], &secec.ECDSAOptions{Hash: crypto.SHA1})
+		// every hash selector the standard library knows, with a digest of exactly its size whose leftmost bytes are the signed digest
+		// (round 8): most of these packages are NOT linked into this binary - a selector only sizes the digest, it is never called
+		if hashSweep < 6 {
+			hashSweep++
+			for h := crypto.MD4; h <= crypto.BLAKE2b_512; h++ {
+				dg := bytes.Repeat([]byte{0xa5}, h.Size())
+				copy(dg, digest)
+				enc(q, dg, sigs[secec.EncodingASN1], &secec.ECDSAOptions{Hash: h})
+				enc(q, dg, sigs[secec.EncodingCompact], &secec.ECDSAOptions{Hash: h, Encoding: secec.EncodingCompact, RejectMalleable: true})
+			}
+		}
 		btc(q, digest, append(append([]byte{}, sigs[secec.EncodingASN1]...), 0x01))
 		btc(q, digest, sigs[secec.EncodingASN1])
 	}
@@ -732,7 +744,7 @@ func driveSign(c *ctx) {
 	}
 	var cases []optcase
 	cases = append(cases, optcase{"nil", 0, 0})
-	for _, h := range []crypto.Hash{0, crypto.SHA256, crypto.SHA512, crypto.SHA384, crypto.SHA1} {
+	for _, h := range []crypto.Hash{0, crypto.SHA256, crypto.SHA512, crypto.SHA384, crypto.SHA1, crypto.SHA3_256, crypto.BLAKE2s_256, crypto.BLAKE2b_256, crypto.SHA512_256, crypto.BLAKE2b_384} {
 		for _, e := range []secec.SignatureEncoding{secec.EncodingASN1, secec.EncodingCompact, secec.EncodingCompactRecoverable, secec.SignatureEncoding(9),
 			secec.SignatureEncoding(-1), secec.SignatureEncoding(3), secec.SignatureEncoding(-1 << 31), secec.SignatureEncoding(1 << 30)} {
 			cases = append(cases, optcase{"ecdsa", h, e})
